@@ -6,7 +6,7 @@
    IS the parent waker of that poll, so firing it wakes that parent directly. *)
 From Coq Require Import List Arith Bool.
 Import ListNotations.
-Require Import ScanFull InstsFull Pass ObligJoin ObligMZ ObligGroups FireTotal GhostTrace NonSel C11Groups PassProofs PassC01.
+Require Import ScanFull InstsFull Pass ObligJoin ObligMZ ObligGroups FireTotal GhostTrace NonSel C11Groups PassProofs PassC01 C04Join Live.
 
 (* ---- selective strategy: in every state reached at or after a poll that returned Pending, a signalled child implies that the
         newest parent waker has been woken (for all sizes, child behaviours, histories of polls / wakes through any handle / drop / group ops) *)
@@ -117,6 +117,29 @@ Proof. exact (zip_fire_total scs ops c k). Qed.
 Theorem C01_fire_total_group stream cap0 ops c k : fire_panics gst g_slots (group_world true stream cap0 ops) c k = false.
 Proof. exact (group_fire_total stream cap0 ops c k). Qed.
 Print Assumptions C01_fire_total_join. Print Assumptions C01_fire_total_merge. Print Assumptions C01_fire_total_zip. Print Assumptions C01_fire_total_group.
+
+(* ---- "consequently ... every join resolves once its children have made the progress that permits it": bounded progress under a wake-driven
+        executor.  [round w] (Model/ScanFull.v, Section Live) = invoke the most recent waker of every child, then poll with the same task;
+        [rounds B] = B such rounds, starting from the freshly constructed join (the first round's wakers do not exist yet: it is the first poll).
+        For n >= 1 children whose scripts are Pending* then Ready (with any wake-ups of any handles inside their polls), after B = the length of the
+        longest script rounds the join has not unwound and has returned - to that executor, which never polls without a preceding wake-up - the
+        positional vector of its children's values; and the world reached is one of the histories all the theorems above speak about.
+        (Generic part: poll_live / round_live / rounds_progress / fair_executor_returns - one poll on panic-free scripts never unwinds, no script
+        grows, and a Pending poll consumes one step of every signalled awaited child.) *)
+Theorem C01_join_resolves_under_wake_driven_executor tuple scs :
+  (forall i, fut_script (nth i scs [])) -> (forall i, i < length scs -> first_ready (nth i scs []) <> None) -> 0 < length scs ->
+  let w := rounds jst j_slots j_awaited (fun _ i => i) j_handle tuple tuple j_order (fun _ => None) j_pre_any j_finish (fun s => s) j_drop (fun _ => true)
+             (@no_mut jst) (bound scs) (join_world true false tuple scs []) in
+  (exists ops, w = join_world true false tuple scs ops) /\ dropped _ w = false /\
+  exists vs, In (EEndR (OVals vs)) (tr _ w) /\ length vs = length scs /\ forall i, i < length scs -> first_ready (nth i scs []) = Some (nth i vs 0).
+Proof. exact (join_fair_resolves tuple scs). Qed.
+Print Assumptions C01_join_resolves_under_wake_driven_executor.
+Example C01_resolves_witness :
+  let scs := [[{| fires := []; answer := APend |}; {| fires := []; answer := APend |}; {| fires := []; answer := AReady (ROk 7) |}]; [{| fires := []; answer := AReady (ROk 9) |}]] in
+  let w := rounds jst j_slots j_awaited (fun _ i => i) j_handle false false j_order (fun _ => None) j_pre_any j_finish (fun s => s) j_drop (fun _ => true)
+             (@no_mut jst) (bound scs) (join_world true false false scs []) in
+  bound scs = 3 /\ results (strip (tr _ w)) = [OVals [7; 9]].
+Proof. vm_compute. split; reflexivity. Qed.
 
 (* non-vacuity: a history that reaches a state satisfying all premises of C01_join: child 0 pends, its waker fires after the poll *)
 Example C01_witness :
